@@ -68,6 +68,13 @@ def run(ctx):
         filters += [orchain(eqs), orchain([nul, ast.Compare(ast.In(), I(col), ast.List(lits[:2]))]), orchain([ast.Compare(ast.In(), I(col), ast.List(lits[:2])), nul, eqs[2]]),
                     ast.BoolOp(ast.And(), ast.Compare(ast.NotEq(), I(col), ast.Null()), ast.Compare(ast.NotEq(), I(col), lits[0])),
                     orchain([ast.Compare(ast.Eq(), ast.Null(), I(col)), eqs[0]])]
+    # in-lists of 1 001 / 1 500 / 2 500 elements whose only elements that are row values sit at the END (a backend that splits or truncates long lists)
+    for n, tail in ((1001, ["7"]), (1500, ["2", "-7"]), (2500, ["3"]), (999, ["1"])):
+        items = [ast.Integer(str(100000 + k)) for k in range(n - len(tail))] + [ast.Integer(t) for t in tail]
+        filters.append(ast.Compare(ast.In(), I("i1"), ast.List(items)))
+        filters.append(ast.UnaryOp(ast.Not(), ast.Compare(ast.In(), I("i2"), ast.List(items))))
+    sitems = [S("zz%d" % k) for k in range(1100)] + [S("ab"), S("O'B")]
+    filters.append(ast.Compare(ast.In(), I("s1"), ast.List(sitems)))
     uniq = sc.dedup(filters)
     nodes = [n for w, n in uniq]
     texts = texts_of(nodes)
